@@ -128,7 +128,7 @@ def fstring_b(out, tier, scratch, rng):
     from parso.python.tokenize import tokenize
     from parso.utils import parse_version_string
     d = scratch.sub('fb')
-    fb = {'maxlen': 3, 'maxlines': 2 if tier == 'quick' else 3, 'hist': False, 'maxind': 3, 'mode': 'explore', 'traces': []}
+    fb = {'maxlen': 3, 'maxlines': 1 if tier == 'quick' else 2, 'hist': False, 'maxind': 3, 'mode': 'explore', 'traces': []}
     cfg = 'SPECIFICATION Spec\nCHECK_DEADLOCK FALSE\n' + ''.join('INVARIANT %s\n' % i for i in FB_INVS)
     tlc.prepare(d, ['TokEnv', 'FStringB'], {'fb.json': json.dumps(fb)})
     res = tlc.run(d, 'FStringB', cfg, workers=4, timeout=3000)
@@ -226,8 +226,9 @@ def contstr_b(out, tier, scratch, rng):
     d = scratch.sub('cb')
     cb = {'maxlen': 3, 'maxlines': 2, 'hist': False, 'maxind': 3, 'mode': 'explore', 'traces': []}
     cfg = 'SPECIFICATION Spec\nCHECK_DEADLOCK FALSE\n' + ''.join('INVARIANT %s\n' % i for i in CB_INVS)
-    # every pair of lines of <= 3 atoms (a triple quote needs 3); thorough: also every 4 lines of <= 2 atoms
-    for bi, (ml, mn) in enumerate([(3, 2)] if tier == 'quick' else [(3, 2), (2, 4)]):
+    # thorough: every pair of lines of <= 3 atoms (a triple quote needs 3) and every 4 lines of <= 2 atoms;
+    # quick: every line of <= 3 atoms and every pair of lines of <= 2 atoms (the multi-line cases come from the traces)
+    for bi, (ml, mn) in enumerate([(3, 1), (2, 2)] if tier == 'quick' else [(3, 2), (2, 4)]):
         cb.update(maxlen=ml, maxlines=mn)
         tlc.prepare(d, ['TokEnv', 'ContStrB'], {'cb.json': json.dumps(cb)})
         res = tlc.run(d, 'ContStrB', cfg, workers=4, timeout=3000)
@@ -304,6 +305,95 @@ def contstr_b(out, tier, scratch, rng):
             contstrb_runs_replayed=agree + dis, contstrb_runs_agree=agree)
 
 
+PB_CH = {'sp': ' ', 'tab': '\t', 'ff': '\f', 'nl': '\n', 'crnl': '\r\n', 'cr': '\r', 'cmt': '#c', 'cmtff': '#c\fd',
+         'bsnl': '\\\n', 'bscr': '\\\r', 'bscrnl': '\\\r\n', 'bom': '\ufeff'}
+PB_INVS = ['PartsTile', 'PositionsTrue', 'EndsMeet', 'LastIsSpacing']
+
+
+def _pb_valid(p):
+    for i, a in enumerate(p):
+        if a == 'bom' and i:
+            return False
+        if i + 1 < len(p):
+            if a in ('cmt', 'cmtff') and p[i + 1] not in ('nl', 'crnl', 'cr'):
+                return False
+            if a in ('cr', 'bscr') and p[i + 1] == 'nl':
+                return False
+    return True
+
+
+def prefix_b(out, tier, scratch, rng):
+    """PrefixB (model of split_prefix): design invariants over all valid prefixes of <= 4 atoms x 3 start positions;
+    the real split_prefix on every valid prefix of <= 4 atoms and on random longer ones against the spec's Parts;
+    a raise of the real function is a violation (C09: prefix splitting is total)"""
+    import itertools
+    import json
+    import types
+    from harness import record, tlc
+    from parso.python.prefix import split_prefix
+    d = scratch.sub('pb')
+    tlc.prepare(d, ['PrefixB'], {'pb.json': json.dumps({'maxlen': 3 if tier == 'quick' else 4, 'mode': 'explore', 'traces': []})})
+    res = tlc.run(d, 'PrefixB', 'SPECIFICATION Spec\nCHECK_DEADLOCK FALSE\n' + ''.join('INVARIANT %s\n' % i for i in PB_INVS),
+                  workers=4, timeout=1800)
+    out.add('states', res.distinct)
+    out.add('transitions', res.generated)
+    if res.violated:
+        out.drift.append('PrefixB violates %s: %s' % (res.violated, res.out[-600:]))
+    A = sorted(PB_CH)
+
+    def enc(s_):
+        return ['BOM' if c == '\ufeff' else c for c in s_]
+    seen_exc = set()
+
+    def rec(i, p, line, col):
+        text = ''.join(PB_CH[a] for a in p)
+        tr = {'id': i, 'pre': list(p), 'line': line, 'col': col, 'raised': False, 'parts': []}
+        try:
+            for part in split_prefix(types.SimpleNamespace(prefix=text), (line, col)):
+                tr['parts'].append([part.type, enc(part.value), enc(part.spacing), part.start_pos[0], part.start_pos[1]])
+        except Exception as e:  # noqa
+            tr['raised'] = True
+            k = record.exc_key(e)
+            if k not in seen_exc:
+                seen_exc.add(k)
+                out.violation('SplitPrefixNeverFails|' + k, 'Tree.C09.SplitPrefixNeverFails',
+                              {'prefix': text, 'exc': k}, {'kind': 'prefix', 'trace': {'text': text + 'a', 'ver': '3.9'}})
+        return tr
+    traces = []
+    texts = {}
+    for k in range(0, 5):
+        for p in itertools.product(A, repeat=k):
+            if not _pb_valid(p):
+                continue
+            for (l, c) in [(1, 0), (3, 0), (2, 5)]:
+                if p and p[0] == 'bom' and (l, c) != (1, 0):
+                    continue
+                traces.append(rec(len(traces) + 1, p, l, c))
+    target = len(traces) + (5000 if tier == 'quick' else 60000)
+    while len(traces) < target:
+        p = tuple(rng.choice(A[1:]) for _ in range(rng.randrange(5, 11)))
+        if _pb_valid(p):
+            traces.append(rec(len(traces) + 1, p, rng.choice([1, 4]), rng.choice([0, 3])))
+    acc = rej = 0
+    for i in range(0, len(traces), 50000):
+        dd = scratch.sub('pbt%d' % i)
+        tlc.prepare(dd, ['PrefixB'], {'pb.json': json.dumps({'maxlen': 0, 'mode': 'trace', 'traces': traces[i:i + 50000]})})
+        r = tlc.run(dd, 'PrefixB', 'SPECIFICATION Spec\nCHECK_DEADLOCK FALSE\n', workers=1, timeout=1800)
+        summ = r.printed('SUMMARY')
+        if not summ:
+            raise tlc.TLCError('PrefixB trace run did not finish: ' + r.out[-800:])
+        acc += summ[-1][1]
+        rej += summ[-1][2]
+        by = {t['id']: t for t in traces[i:i + 50000]}
+        for x in r.printed('REJECT')[:3]:
+            if x[3] != 'SplitNeverFails':
+                out.drift.append('PrefixB and the real split_prefix disagree (%s) on %r' % (
+                    x[3], ''.join(PB_CH[a] for a in by[x[1]]['pre'])))
+        out.add('states', r.distinct)
+        out.add('transitions', r.generated)
+    out.cov(prefixb_exhaustive_states=res.distinct, prefixb_traces_accepted=acc, prefixb_traces_rejected=rej)
+
+
 def classify(rej):
     """cause key of a rejected observation"""
     r = rej['reject']
@@ -356,6 +446,7 @@ def run(tier):
         tokenizer_b(out, tier, scratch, rng)
         fstring_b(out, tier, scratch, rng)
         contstr_b(out, tier, scratch, rng)
+        prefix_b(out, tier, scratch, rng)
         bind = selftest.binding_tokens(scratch.sub('bind'))
         out.cov(binding_demonstrated=bind)
         if not bind['ok']:
